@@ -18,7 +18,7 @@ CHECK = {'title': 'Only root-controlled executables are ever run',
          'run 2 (configuration): a real YAML configuration loaded through viper in 4 variants (no cmd entry, cmd sensor, cmd fan, both) x the same 4096 '
          'file states through the real Validate(path), and the 2048 change-between-validations pairs per variant. '
          'Oracle (one-directional): file not (uid 0 and not(gid!=0 and g+w) and not o+w) => error returned and marker absent / Validate error when a cmd '
-         'entry is declared. distinct_nontrivial = number of enumerated cases (no repetition); the counters give how many were allowed and did execute. Also: a bare command name that only PATH resolves (per core state), and a call that may have to wait behind a running command while its file changes owner (3 states; the script reports the owner/mode it has when it runs).',
+         'entry is declared. distinct_nontrivial = number of enumerated cases (no repetition); the counters give how many were allowed and did execute. Also: a bare command name that only PATH resolves (per core state), and a call that may have to wait behind a running command while its file changes owner (3 states; the script reports the owner/mode it has when it runs). Part 8: the file is open for writing when the checked call tries to start it (text file busy), changes owner/mode 60 ms later and is closed 350 ms later: whenever it runs it must be root-controlled at that moment. The configuration run has a fan-less variant (cmd sensor, curve, no fans).',
  'assumptions': ['the sandbox runs as root on tmpfs (/dev/shm): chown/chmod take effect immediately, root bypasses read permission but needs one x bit to execute',
                  'uid/gid 1234 stand for every non-root owner/group (the rule only distinguishes 0 from non-0)'],
  'level_text': 'complete enumeration of the finite space owner x group x all 512 modes x direct/symlink, plus all ordered change pairs over a 32-state core, '
